@@ -209,7 +209,7 @@ pub fn toolchain() -> Result<Toolchain, String> {
 		.args(["build", "--release", "--offline", "-p", "subjects", "--message-format=json"])
 		.current_dir(format!("{}/harness", verif_root()))
 		.env("RUSTFLAGS", "--cfg parity_scale_codec_verif")
-		.env("CARGO_TARGET_DIR", format!("{}/target/harness", verif_root()))
+		.env("CARGO_TARGET_DIR", std::env::var("CARGO_TARGET_DIR").unwrap_or_else(|_| format!("{}/target/harness", verif_root())))
 		.output()
 		.map_err(|e| format!("cannot run cargo: {}", e))?;
 	if !out.status.success() {
